@@ -187,6 +187,19 @@ def add_cases(rng, T):
             yield 'add_pwc', list(pwc_on(rng, T, i1)) + list(pwc_on(rng, T, i2)), tg
             yield 'add_pwl', list(pwl_on(rng, T, i1)) + list(pwl_on(rng, T, i2)), tg
             yield 'add_disc', list(disc_on(rng, T, i1)) + list(disc_on(rng, T, i2)), tg
+    # breakpoints / event times that differ by 2^-20 only (a tolerant comparison would fuse them)
+    e = Fr(1, 2 ** 20)
+    for i1 in inner:
+        if not i1:
+            continue
+        for sg in (1, -1):
+            def near(f):
+                f = list(f)
+                f[0] = [f[0][0]] + [v + sg * e for v in f[0][1:-1]] + [f[0][-1]]
+                return f
+            yield 'add_pwc', list(pwc_on(rng, T, i1)) + near(pwc_on(rng, T, i1)), ['near-breakpoints']
+            yield 'add_pwl', list(pwl_on(rng, T, i1)) + near(pwl_on(rng, T, i1)), ['near-breakpoints']
+            yield 'add_disc', list(disc_on(rng, T, i1)) + near(disc_on(rng, T, i1)), ['near-breakpoints']
 
 
 def half_points(T):
